@@ -162,7 +162,7 @@ func randJ2KConfig(r *gen.Rand, c *j2kCase) {
 func (c04) Build(tier string, seed uint64) []any {
 	var cs []any
 	th := tier == "thorough"
-	nPairs, nGridS, small, nRand, nContent := 250, 200, 8, 16, 60
+	nPairs, nGridS, small, nRand, nContent := 800, 600, 8, 40, 300
 	if th {
 		nPairs, nGridS, small, nRand, nContent = 15000, 4800, 16, 1200, 6000
 	}
@@ -230,7 +230,7 @@ func (c04) Build(tier string, seed uint64) []any {
 	}
 	// (dense) full 64x64 code-blocks of high-precision noise: the largest code-block
 	// contributions (> 8 KiB per block, long pass lengths, Lblock growth)
-	nDense := 12
+	nDense := 24
 	if th {
 		nDense = 600
 	}
@@ -252,7 +252,7 @@ func (c04) Build(tier string, seed uint64) []any {
 	}
 	// (precgrid) several precincts per axis, resolution extents that are exact multiples of
 	// the precinct size (and one off), every progression order
-	nPrec := 40
+	nPrec := 160
 	if th {
 		nPrec = 4000
 	}
@@ -437,7 +437,7 @@ func (c19) Build(tier string, seed uint64) []any {
 			}
 		}
 	}
-	nPartial, nSmall, nRand, nBig := 40, 40, 120, 4
+	nPartial, nSmall, nRand, nBig := 160, 160, 480, 8
 	if th {
 		nPartial, nSmall, nRand, nBig = 4000, 4000, 25000, 400
 	}
